@@ -102,7 +102,8 @@ impl ConfigFile {
 
     /// Checks if the CFG contains a category named `select_category`
     pub fn has_category(&self, select_category: &str) -> bool {
-        self.settings.contains_key(select_category)
+        // a category may have no settings at all, so consult the category list
+        self.categories.iter().any(|category| category == select_category)
     }
 
     /// Sets the value to `new_value` of `select_key`
